@@ -120,3 +120,25 @@ Theorem C01_run_fuel_irrelevant :
 Proof. exact run_fuel_irrelevant. Qed.
 Print Assumptions C01_run_fuel_irrelevant.
 
+
+(* ---- the tie to the source by translation: coq/gen/GenSched.v is regenerated from
+   src/eascheduler/schedulers/async_scheduler.py on every run (tools/gen_sched.py); these theorems are re-checked
+   against it.  For every fuel and every state: whenever the model of Sched.v returns a state that is not marked
+   broken (always, from well-formed states: core_specs_all), the generated set_timer / run_jobs / its loop / add_job /
+   remove_job return exactly that state, and job.execute() hands its exception to run_jobs. *)
+From EAS Require GenRt GenSchedEq.
+Theorem C01_generated_source_recognised : EASGen.GenSched.gen_sched_status_v = EASGen.GenSched.GenSchedOk.
+Proof. exact GenSchedEq.gen_sched_recognised. Qed.
+Print Assumptions C01_generated_source_recognised.
+Theorem C01_generated_scheduler_is_model : forall E f, GenSchedEq.agrees E f.
+Proof. exact GenSchedEq.gen_agrees. Qed.
+Print Assumptions C01_generated_scheduler_is_model.
+Theorem C01_generated_wake_is_model : forall E fuel hs s s' w,
+  Inv s -> timer s = Some w -> w <= now s -> step_op E fuel hs s OWake = (s', Done) ->
+  GenSchedEq.gen_run_jobs E fuel s = Some (s', GenRt.Ret).
+Proof. exact GenSchedEq.gen_wake_is_model. Qed.
+Print Assumptions C01_generated_wake_is_model.
+Theorem C01_generated_enable_is_model : forall E fuel hs s b s',
+  Inv s -> step_op E fuel hs s (OEnable b) = (s', Done) -> GenSchedEq.gen_set_enabled E fuel b s = Some (s', GenRt.Ret).
+Proof. exact GenSchedEq.gen_enable_is_model. Qed.
+Print Assumptions C01_generated_enable_is_model.
